@@ -256,12 +256,12 @@ Definition abs2 (p : vec * vec) : list Z * list Z := (abs (fst p), abs (snd p)).
 Lemma reborn_post s : wf s -> wf (reborn s) /\ abs (reborn s) = [].
 Proof.
   intros W. destruct (destroy_all_balance s W) as (E & N & P). unfold reborn. split; [|reflexivity].
-  constructor; cbn [size csize cap cells err nctor ndtor nalloc]; auto; try lia. intros; lia.
+  constructor; cbn [size csize cap cells err nctor ndtor nalloc]; auto; try lia; intros; lia.
 Qed.
 
-Lemma range_ctor_post r vs : wf r -> wf (range_ctor r vs) /\ abs (range_ctor r vs) = vs.
+Lemma range_ctor_post r vs : wf r -> csize r = 0 -> wf (range_ctor r vs) /\ abs (range_ctor r vs) = vs.
 Proof.
-  intros [W1 W2 W3 W4 W5 W6]. unfold range_ctor. split.
+  intros [W1 W2 W3 W4 W5 W6] Hc. unfold range_ctor. split.
   - constructor; cbn [size csize cap cells err nctor ndtor nalloc]; auto; try lia.
     + intros j Hj. rewrite ltb_true by lia. auto.
     + intros j Hj. rewrite ltb_false by lia. auto.
@@ -288,8 +288,8 @@ Proof.
     rewrite A1, A2. auto.
   - destruct (assign_range_post b (abs a) Wb) as (W1 & A1 & _). destruct (clear_post a Wa) as (W2 & A2 & _).
     rewrite A1, A2. auto.
-  - destruct (range_ctor_post (reborn a) (abs b) Wra) as (W1 & A1). rewrite A1. auto.
-  - destruct (range_ctor_post (reborn b) (abs a) Wrb) as (W1 & A1). rewrite A1. auto.
+  - destruct (range_ctor_post (reborn a) (abs b) Wra eq_refl) as (W1 & A1). rewrite A1. auto.
+  - destruct (range_ctor_post (reborn b) (abs a) Wrb eq_refl) as (W1 & A1). rewrite A1. auto.
   - rewrite Ara. auto.
   - rewrite Arb. auto.
   - rewrite Ara. auto.
